@@ -137,6 +137,101 @@ macro_rules! __verif_thread_local_inner {
     };
 }
 
+/// The clock seam: `std::time::Instant` of the crate under test reads a *simulated* monotonic
+/// clock owned by the simulator. Every read advances it by a seeded pseudo-random step - mostly
+/// tens of nanoseconds, sometimes milliseconds, occasionally seconds (a stalled machine, a
+/// suspended VM) - so that time-outs, expiry and "once per second" logic inside the crate are
+/// exercised within microseconds of real time, reproducibly. `SystemTime` is left alone.
+pub mod time {
+    pub use ::std::time::{Duration, SystemTime, SystemTimeError, UNIX_EPOCH};
+    use ::std::ops::{Add, AddAssign, Sub, SubAssign};
+    use ::std::sync::atomic::{AtomicU64, Ordering};
+
+    static NOW_NS: AtomicU64 = AtomicU64::new(1_000_000_000);
+    static RNG: AtomicU64 = AtomicU64::new(0x9E37_79B9_7F4A_7C15);
+    static READS: AtomicU64 = AtomicU64::new(0);
+
+    /// (re)seed the step generator; the clock itself keeps running (it is monotonic for the
+    /// whole process, like the real one)
+    pub fn sim_seed(seed: u64) {
+        RNG.store(seed | 1, Ordering::Relaxed);
+    }
+    /// (simulated nanoseconds since process start, number of clock reads by the crate under test)
+    pub fn sim_stats() -> (u64, u64) {
+        (NOW_NS.load(Ordering::Relaxed) - 1_000_000_000, READS.load(Ordering::Relaxed))
+    }
+    fn step() -> u64 {
+        // splitmix64; all simulated threads are continuations on one OS thread: no contention
+        let mut z = RNG.load(Ordering::Relaxed).wrapping_add(0x9E37_79B9_7F4A_7C15);
+        RNG.store(z, Ordering::Relaxed);
+        z = (z ^ (z >> 30)).wrapping_mul(0xBF58_476D_1CE4_E5B9);
+        z = (z ^ (z >> 27)).wrapping_mul(0x94D0_49BB_1331_11EB);
+        z ^= z >> 31;
+        match z % 100 {
+            0 => 1_000_000_000 + z % 4_000_000_000,  // a jump of 1-5 s
+            1..=2 => 100_000_000 + z % 900_000_000,  // 0.1-1 s
+            3..=9 => 1_000_000 + z % 20_000_000,     // 1-21 ms
+            _ => 20 + z % 200,                       // tens of ns
+        }
+    }
+
+    #[derive(Copy, Clone, PartialEq, Eq, PartialOrd, Ord, Hash, Debug)]
+    pub struct Instant(u64);
+
+    impl Instant {
+        pub fn now() -> Instant {
+            READS.fetch_add(1, Ordering::Relaxed);
+            Instant(NOW_NS.fetch_add(step(), Ordering::Relaxed))
+        }
+        pub fn elapsed(&self) -> Duration {
+            Instant::now().saturating_duration_since(*self)
+        }
+        pub fn duration_since(&self, earlier: Instant) -> Duration {
+            self.saturating_duration_since(earlier)
+        }
+        pub fn checked_duration_since(&self, earlier: Instant) -> Option<Duration> {
+            self.0.checked_sub(earlier.0).map(Duration::from_nanos)
+        }
+        pub fn saturating_duration_since(&self, earlier: Instant) -> Duration {
+            Duration::from_nanos(self.0.saturating_sub(earlier.0))
+        }
+        pub fn checked_add(&self, d: Duration) -> Option<Instant> {
+            u64::try_from(d.as_nanos()).ok().and_then(|n| self.0.checked_add(n)).map(Instant)
+        }
+        pub fn checked_sub(&self, d: Duration) -> Option<Instant> {
+            u64::try_from(d.as_nanos()).ok().and_then(|n| self.0.checked_sub(n)).map(Instant)
+        }
+    }
+    impl Add<Duration> for Instant {
+        type Output = Instant;
+        fn add(self, d: Duration) -> Instant {
+            self.checked_add(d).expect("overflow when adding duration to instant")
+        }
+    }
+    impl Sub<Duration> for Instant {
+        type Output = Instant;
+        fn sub(self, d: Duration) -> Instant {
+            self.checked_sub(d).expect("overflow when subtracting duration from instant")
+        }
+    }
+    impl Sub<Instant> for Instant {
+        type Output = Duration;
+        fn sub(self, o: Instant) -> Duration {
+            self.saturating_duration_since(o)
+        }
+    }
+    impl AddAssign<Duration> for Instant {
+        fn add_assign(&mut self, d: Duration) {
+            *self = *self + d;
+        }
+    }
+    impl SubAssign<Duration> for Instant {
+        fn sub_assign(&mut self, d: Duration) {
+            *self = *self - d;
+        }
+    }
+}
+
 pub mod sync {
     pub use ::std::sync::*;
     pub use shuttle::sync::{Barrier, BarrierWaitResult, Condvar, Mutex, MutexGuard, Once, OnceState, RwLock, RwLockReadGuard, RwLockWriteGuard, WaitTimeoutResult};
